@@ -162,6 +162,10 @@ fn eval_one(req: &Value) -> Value {
 		.as_u64()
 		.map(|n| limit_stack_depth(n as usize));
 
+	// strings kept interned for the whole evaluation (C16/C18: results must not depend on the pool)
+	let _pre: Vec<IStr> = (0..req["preintern"].as_u64().unwrap_or(0))
+		.map(|i| IStr::from(format!("pre{}x{i}", i * 7919 % 1013).as_str()))
+		.collect();
 	let std_ctx = ContextInitializer::new(PathResolver::new_cwd_fallback());
 	if req["trace"].as_bool().unwrap_or(false) {
 		std_ctx.settings_mut().trace_printer = Rc::new(CollectTrace(traces.clone()));
